@@ -169,6 +169,35 @@ def families():
                             ["PusTc.unpack"])
     F["tm_embedded_crc"] = (lambda r: embed_crc(lambda d, a=r.getrandbits(11), c=r.getrandbits(14), sb=r.getrandbits(8), ts=r.randbytes(7): P.tm(a, c, 17, sb, 0, 0, 0, ts, d), r),
                             ["PusTm.unpack[ts=7]", "Service17Tm.unpack[ts=7]"])
+    def crc_trailer(build, r):
+        """A TC / TM whose CRC trailer is 0x0000, 0xFFFF, ends in a zero octet or starts with one (the last two data octets are
+        chosen for it): a decoder that pads, strips or zero-extends must still refuse every strict prefix."""
+        from spverif.ref.crc import crc16 as _crc, find16
+        n = r.randrange(2, 16)
+        data = bytearray(rand_bytes(r, n))
+        target = r.choice((0x0000, 0xFFFF, r.getrandbits(8) << 8, r.getrandbits(8), 0x2020, 0x0001))
+        probe = build(bytes(data))
+        x = find16(probe[:-4], lambda x: x.to_bytes(2, "big"), target)
+        data[-2:] = x.to_bytes(2, "big")
+        out = build(bytes(data))
+        assert out[-2:] == target.to_bytes(2, "big") and _crc(out) == 0
+        return out
+    F["tc_crc_trailer"] = (lambda r: crc_trailer(lambda d, a=r.getrandbits(11), c=r.getrandbits(14), sv=r.getrandbits(8), sb=r.getrandbits(8), si=r.getrandbits(16): P.tc(a, c, sv, sb, si, 0xF, d), r),
+                           ["PusTc.unpack"])
+    F["tm_crc_trailer"] = (lambda r: crc_trailer(lambda d, a=r.getrandbits(11), c=r.getrandbits(14), sb=r.getrandbits(8), ts=r.randbytes(7): P.tm(a, c, 17, sb, 0, 0, 0, ts, d), r),
+                           ["PusTm.unpack[ts=7]", "Service17Tm.unpack[ts=7]"])
+    F["tm0_crc_trailer"] = (lambda r: crc_trailer(lambda d, a=r.getrandbits(11), c=r.getrandbits(14), sb=r.getrandbits(8): P.tm(a, c, 17, sb, 0, 0, 0, b"", d), r),
+                            ["PusTm.unpack[ts=0]", "Service17Tm.unpack[ts=0]"])
+
+    def pdu_crc_trailer(r):
+        kind = r.choice(C.KINDS8)
+        cfg = C.rand_cfg(r, segctrl=(kind == "file_data"), crc=1, seqw=r.choice((2, 4, 8)))
+        p = C.rand_params(r, kind, cfg, rich=False)
+        if kind == "file_data":
+            p["data"] = p["data"][:40]
+        got = C.craft_crc_boundary(kind, cfg, p, "whole", r.choice((0x0000, 0xFFFF, r.getrandbits(8) << 8, r.getrandbits(8))))
+        return C.ref_octets(kind, *got)
+    F["pdu_crc_trailer"] = (pdu_crc_trailer, ["PduFactory.from_raw", "PduFactory.from_raw_to_holder"])
     F["cds"] = (lambda r: T.encode(r.getrandbits(16), r.randrange(86_400_000)), ["CdsShortTimestamp.unpack", "CdsShortTimestamp.unpack_from_raw", "CdsShortTimestamp.read_from_raw"])
     F["request_id"] = (lambda r: P.request_id(r.getrandbits(3), r.getrandbits(1), r.getrandbits(1), r.getrandbits(11), r.getrandbits(2), r.getrandbits(14)), ["RequestId.unpack"])
     for pfc in (8, 16, 32, 64):
@@ -385,6 +414,22 @@ def structured_cases(r):
         out.append((f"{cls}.unpack", b""))
     for raw in (b"", b"\x05", b"\x00", b"\xff" + b"a" * 10):
         out.append(("CfdpLv.unpack", raw))
+    # values the code itself compares against (markers, magic numbers found in the live modules): exactly the constant, one octet
+    # less, one more, twice - as the value of every concrete TLV class, as an LV and as an option of a Metadata PDU
+    from spverif.core.util import harvested_constants
+    cfg0 = C.rand_cfg(r, crc=0, large=0)
+    for const in harvested_constants():
+        for body in (const, const[:-1], const + b"\x00", const + b"\xff", const + const, const[1:]):
+            if len(body) > 255:
+                continue
+            for name in c08.CONCRETE:
+                cls = c08.cls_of(name).__name__
+                raw = R.tlv(c08.TYPE_OF[name], body)
+                for route in (f"{cls}.unpack", f"{cls}.from_tlv", f"TlvHolder.{c08.HOLDER[name]}"):
+                    out.append((route, raw))
+            out.append(("CfdpLv.unpack", R.lv(body)))
+            out.append(("MetadataPdu.unpack", R.assemble(cfg0, 0, 0, bytes([7, 0x40]) + bytes(4) + b"\x01a\x01b" + R.tlv(2, body))))
+            out.append(("PduFactory.from_raw", R.assemble(cfg0, 0, 0, bytes([7, 0x40]) + bytes(4) + b"\x01a\x01b" + R.tlv(2, body))))
     X = C.lib()
     for kind in C.KINDS8:
         cname = f"{X.CLS[kind].__name__}.unpack"
